@@ -38,6 +38,7 @@ type jExpect struct {
 	ConfigValid     *bool             `json:"configValid,omitempty"`
 	Components      json.RawMessage   `json:"components,omitempty"`
 	Diags           json.RawMessage   `json:"diags,omitempty"`
+	Conflicting []string `json:"conflicting"`
 	PlainError bool `json:"plainError"`
 	NameClash  bool `json:"nameClash"`
 	Routes          []struct {
@@ -657,6 +658,32 @@ func judgeCase(rec *caseRecord, sum *jSummary) {
 				}
 				if len(main.Fs.Created)+len(main.Fs.Modified)+len(main.Fs.Deleted)+len(main.Fs.Touched) > 0 {
 					add("C10", fmt.Sprintf("error-severity diagnostics exist, yet the command changed the file system: %+v", main.Fs))
+				}
+			}
+			// C15 at the project level: exactly the methods with an overlapping same-verb route carry a route-conflict warning
+			if exp.Conflicting != nil {
+				got := map[string]bool{}
+				for _, d := range v.Diags {
+					if d.Code == "route-conflict" {
+						for _, e := range d.Entity {
+							if strings.HasPrefix(e, "Receiver:") {
+								got[strings.TrimPrefix(e, "Receiver:")] = true
+							}
+						}
+					}
+				}
+				eval("C15", len(exp.Conflicting) > 0)
+				want := map[string]bool{}
+				for _, n := range exp.Conflicting {
+					want[n] = true
+					if !got[n] {
+						add("C15", fmt.Sprintf("method %s overlaps another same-verb route (full path) but carries no route-conflict warning", n))
+					}
+				}
+				for n := range got {
+					if !want[n] {
+						add("C15", fmt.Sprintf("method %s carries a route-conflict warning although no other same-verb route can match a common path", n))
+					}
 				}
 			}
 			// C18
